@@ -9,8 +9,8 @@ use std::time::Duration;
 use mrecordlog::verif::{self, FaultPlan, FaultSite};
 use serde_json::{json, Value};
 
-use crate::crash::{assemble, with_deadline};
-use crate::disk::{FileImg, Image};
+use crate::crash::{assemble, os_effects, with_deadline};
+use crate::disk::{FileImg, Image, OsEff};
 use crate::exec::{open_log, run_script, TempDir};
 use crate::{load_scripts, parallel, write_lines, Args, Output};
 
@@ -90,6 +90,8 @@ pub fn cmd(args: &Args) {
     let output = Arc::new(Output::new(&out_dir));
     let deadline = Duration::from_secs(args.num("deadline", 10));
     let all_kinds = args.flag("all-kinds");
+    let gc_images = args.flag("gc-images");
+    let max_gc_images = args.num("max-gc-images", 6) as usize;
     let n = scripts.len();
     let output_in = output.clone();
     parallel(n, args.num("jobs", 8) as usize, &out_dir, "trace", move |job, file| {
@@ -110,13 +112,46 @@ pub fn cmd(args: &Args) {
             write_lines(file, &lines);
             return;
         }
-        // fault-free run: how many calls does recovery make at each site
-        let baseline = open_with_plan(&script.policy, &image.files, None, deadline);
-        output_in.add("images", 1);
-        output_in.add("image_files", image.files.len() as u64);
+        // images: the closed directory at the end of the history, plus (--gc-images) the process-
+        // crash images taken right before each unlink of a GC pass: recovery on these runs a GC
+        // pass of its own (position entries, possibly a
+        // roll-over into a file it has to create or open, unlinks)
+        let mut images: Vec<(String, BTreeMap<u64, FileImg>)> = vec![("closed".to_string(), image.files.clone())];
+        if gc_images {
+            let effects = os_effects(&record, false);
+            let mut partial = Image::default();
+            let mut taken = 0;
+            for (k, tagged) in effects.iter().enumerate() {
+                if let OsEff::Unlink(_) = tagged.eff {
+                    if taken < max_gc_images {
+                        images.push((format!("pre-unlink@{k}"), partial.process_image()));
+                        taken += 1;
+                    }
+                }
+                partial.apply(&tagged.eff, None);
+            }
+        }
         let mut cases: Vec<Value> = Vec::new();
         let mut stop = false;
+        for (image_name, image_files) in &images {
+        let image = Image { files: image_files.clone(), ..Image::default() };
+        // fault-free run: how many calls does recovery make at each site
+        let baseline = open_with_plan(&script.policy, &image.files, None, deadline);
+        if baseline.out != "ok" {
+            // (a crash image the library itself refuses: judged by C02/C10, not here)
+            continue;
+        }
+        output_in.add("images", 1);
+        if image_name != "closed" {
+            output_in.add("gc_crash_images", 1);
+        }
+        output_in.add("image_files", image.files.len() as u64);
         for (site_idx, (site, site_name)) in SITES.iter().enumerate() {
+            // crash images: the write-side sites only matter once (list / read faults are the
+            // closed image's business), but open-or-create calls are enumerated in full
+            if image_name != "closed" && *site_name != "open" {
+                continue;
+            }
             for k in 0..baseline.counts[site_idx] {
                 for forever in [false, true] {
                     let kinds: Vec<&(std::io::ErrorKind, &str)> = if all_kinds {
@@ -147,14 +182,15 @@ pub fn cmd(args: &Args) {
                             "ev": "fault", "site": site_name, "k": k, "forever": forever as i64,
                             "kind": kind_name, "struck": outcome.struck, "out": outcome.out,
                             "errkind": outcome.errkind, "queues": outcome.queues,
-                            "base": baseline.counts.to_vec(), "files": image.files.len(),
+                            "base": baseline.counts.to_vec(), "files": image.files.len(), "image": image_name,
                         }));
                     }
                 }
             }
         }
-        output_in.sample(json!({"script": script.name, "files": image.files.len(),
-            "calls_per_site(list,open,read,seek)": baseline.counts.to_vec(), "cases": cases.len(),
+        }
+        output_in.sample(json!({"script": script.name, "files": image.files.len(), "images": images.len(),
+            "cases": cases.len(),
             "first": cases.first()}));
         lines.extend(cases);
         output_in.add("trace_lines", lines.len() as u64);
